@@ -19,23 +19,51 @@ def relTagOf (n : Name) : String := (n.splitOn ".").headD ""
 /-- the harness' store ignores names that start with `ign`. -/
 def relIgn (n : Name) : Bool := n.startsWith "ign"
 
-/-- times are hours relative to the case's base instant; the operations run within the
-    first hour after it. -/
+/-- the unit of the integers the model compares: one tick = 100 ms, 36000 to the hour. The
+    op grammar writes a time as `T` (hours relative to the case's base instant) or `T+K`
+    (`K` ticks later, `0 ≤ K < maxTick`); durations (delete delays, the age of a restart) are
+    whole hours. Everything is scaled to ticks here, at parse time: Model/Release.lean
+    hard-codes no duration and is unit-agnostic (`Env.now`, `Tag.delay`, `restart k`). -/
+def ticksPerHour : Int := 36000
+
+/-- the last ten minutes of an hour carry no written time: the real clock of the run lies
+    there (harness: base = start of the case - 50 min), so that every comparison with `now`
+    is decided by the written numbers alone. -/
+def maxTick : Nat := 30000
+
+/-- `T` or `T+K` to ticks. -/
+def parseTime? (s : String) : Option Int :=
+  match s.splitOn "+" with
+  | [h] => (parseInt? h).map (· * ticksPerHour)
+  | [h, k] =>
+    match parseInt? h, parseNat? k with
+    | some h, some k => if k < maxTick then some (h * ticksPerHour + (k : Int)) else none
+    | _, _ => none
+  | _ => none
+
+/-- ticks print as `T` when they are whole hours, as `T+K` (`0 < K < 36000`) otherwise. -/
+def fmtTime (t : Int) : String :=
+  let h := Int.fdiv t ticksPerHour
+  let k := Int.fmod t ticksPerHour
+  if k = 0 then s!"{h}" else s!"{h}+{k}"
+
+/-- the operations run within the last ten minutes of the first hour after the base instant:
+    the current instant lies strictly between `now - 6000` and `now` ticks. -/
 def RelDrv.env (d : RelDrv) : Env :=
-  { tags := d.tags, tagOf := relTagOf, ign := relIgn, now := 1, pollMax := d.pollMax, attempts := d.attempts }
+  { tags := d.tags, tagOf := relTagOf, ign := relIgn, now := ticksPerHour, pollMax := d.pollMax, attempts := d.attempts }
 
 def tokHash (s : String) : String := unesc s
 
 def fmtHash (h : String) : String := esc h
 
 def fmtEntry (e : CEntry) : String :=
-  s!"{esc e.name}/{e.size}/{e.time}/{fmtHash e.hash}/{if e.done then 1 else 0}"
+  s!"{esc e.name}/{e.size}/{fmtTime e.time}/{fmtHash e.hash}/{if e.done then 1 else 0}"
 
 def fmtCache (c : Cache) : String :=
   if c.isEmpty then "-" else ",".intercalate (c.map fmtEntry)
 
 def fmtStore (s : Store) : String :=
-  if s.isEmpty then "-" else ",".intercalate (s.map (fun f => s!"{esc f.name}/{f.size}/{f.time}/{fmtHash f.hash}"))
+  if s.isEmpty then "-" else ",".intercalate (s.map (fun f => s!"{esc f.name}/{f.size}/{fmtTime f.time}/{fmtHash f.hash}"))
 
 def fmtLeft (l : List Rng) : String :=
   if l.isEmpty then "-" else ",".intercalate (l.map (fun r => s!"{r.beg}:{r.fin}"))
@@ -62,7 +90,7 @@ def fmtEff : Eff → String
   | .cacheRemove n => s!"crm:{esc n}"
   | .cacheDone n c => s!"cdone:{esc n}:{if c then 1 else 0}"
   | .cacheAdd n => s!"cadd:{esc n}"
-  | .storeRemove n e f => s!"del:{esc n}:{e.size}/{e.time}:{match f with | some g => s!"{g.size}/{g.time}" | none => "none"}"
+  | .storeRemove n e f => s!"del:{esc n}:{e.size}/{fmtTime e.time}:{match f with | some g => s!"{g.size}/{fmtTime g.time}" | none => "none"}"
   | .wasSent n => s!"wassent:{esc n}"
   | .logSent n h => s!"log:{esc n}:{fmtHash h}"
   | .poll ns => s!"poll:{fmtNames ns}"
@@ -168,7 +196,7 @@ def relStep (d : RelDrv) (ws : List String) : RelDrv × String :=
   match ws with
   | ["tag", t, del, delay] =>
     match parseBool? del, parseInt? delay with
-    | some del, some delay => ({ d with tags := d.tags ++ [⟨unesc t, del, delay⟩] }, "ok")
+    | some del, some delay => ({ d with tags := d.tags ++ [⟨unesc t, del, delay * ticksPerHour⟩] }, "ok")
     | _, _ => bad
   | ["conf", "pollmax", k] =>
     match parseNat? k with
@@ -179,7 +207,7 @@ def relStep (d : RelDrv) (ws : List String) : RelDrv × String :=
     | some k => if k = 0 then bad else ({ d with attempts := k }, "ok")
     | none => bad
   | ["cache", n, size, time, hash, done] =>
-    match parseInt? size, parseInt? time, parseBool? done with
+    match parseInt? size, parseTime? time, parseBool? done with
     | some size, some time, some done =>
       if d.started || !validName n || (cget d.st.cache n).isSome then bad
       else
@@ -187,7 +215,7 @@ def relStep (d : RelDrv) (ws : List String) : RelDrv × String :=
         ({ d with st := { d.st with cache := c, disk := c } }, "ok")
     | _, _, _ => bad
   | ["file", n, size, time, content] =>
-    match parseNat? size, parseInt? time with
+    match parseNat? size, parseTime? time with
     | some size, some time =>
       if !validName n || !validName content then bad
       else
@@ -222,7 +250,7 @@ def relStep (d : RelDrv) (ws : List String) : RelDrv × String :=
     else ({ d with st := { d.st with logged := d.st.logged ++ [(n, tokHash hash)] } }, "ok")
   | ["restart", k] =>
     match parseNat? k with
-    | some k => ({ d with st := restart k d.st, started := true }, "ok")
+    | some k => ({ d with st := restart ((k : Int) * ticksPerHour) d.st, started := true }, "ok")
     | none => bad
   | ["recover"] =>
     let r := recover d.fx d.env d.st
